@@ -117,6 +117,12 @@ type Case struct {
 	NilLevel    bool `json:"nil_level"`
 	Level       int  `json:"cfg_level"`
 	ReplaceAttr bool `json:"replace_attr"`
+	// ReplaceMode selects the ReplaceAttr function when ReplaceAttr is set:
+	// 0 remove time / rename the TRACE level (as the package's helpers do),
+	// 1 remove every built-in top-level attribute (time, level, msg, source),
+	// 2 remove every attribute (the text line is empty), 3 rewrite keys and
+	// string values.
+	ReplaceMode int `json:"replace_mode,omitempty"`
 	// FailAt > 0: the FailAt-th Write of the shared writer panics (FailKind
 	// 1) or returns an error (FailKind 2); the caller recovers and goes on.
 	FailAt     int        `json:"fail_at,omitempty"`
@@ -140,7 +146,23 @@ func (c Case) opts() *slog.HandlerOptions {
 		// tolerant of user attributes that happen to be keyed "level" (the
 		// library's ReplaceLevel type-asserts the value and panics on them;
 		// that function is outside this property).
+		mode := c.ReplaceMode
 		o.ReplaceAttr = func(g []string, a slog.Attr) slog.Attr {
+			switch mode {
+			case 1:
+				if len(g) == 0 && (a.Key == slog.TimeKey || a.Key == slog.LevelKey || a.Key == slog.MessageKey || a.Key == slog.SourceKey) {
+					return slog.Attr{}
+				}
+				return a
+			case 2:
+				return slog.Attr{}
+			case 3:
+				a.Key = "x_" + a.Key
+				if a.Value.Kind() == slog.KindString {
+					a.Value = slog.StringValue(strings.ToUpper(a.Value.String()))
+				}
+				return a
+			}
 			if len(g) > 0 {
 				return a
 			}
@@ -366,6 +388,9 @@ func classify(c Case, prefix string) {
 	if c.AddSource && !c.NilOpts {
 		vp.Class(prefix + ":AddSource")
 	}
+	if c.ReplaceAttr && !c.NilOpts && c.ReplaceMode > 0 {
+		vp.Class(fmt.Sprintf("%s:ReplaceAttr-mode-%d", prefix, c.ReplaceMode))
+	}
 	for _, r := range c.Records {
 		if len(r.Uses) >= 2 {
 			vp.Class(prefix + ":record-handled-by-several-handlers")
@@ -436,6 +461,7 @@ func genCase(t *rapid.T, concurrent bool) Case {
 		NilLevel:    rapid.IntRange(0, 4).Draw(t, "nillevel") == 0,
 		Level:       rapid.SampledFrom([]int{-8, -4, 0, 4, 8, 2, -100}).Draw(t, "cfglevel"),
 		ReplaceAttr: rapid.Bool().Draw(t, "replaceattr"),
+		ReplaceMode: rapid.SampledFrom([]int{0, 0, 0, 1, 1, 2, 3}).Draw(t, "replacemode"),
 		AddSource:   rapid.IntRange(0, 3).Draw(t, "addsource") == 0,
 	}
 	if !concurrent && rapid.IntRange(0, 5).Draw(t, "fault") == 0 {
